@@ -20,7 +20,7 @@ CHECK_DEADLOCK FALSE
 
 def sim_cfg(maxlen):
     return '''CONSTANTS
-  Jobs = {"ja", "jb", "jc"}
+  Jobs = {"ja", "Ja", "jb"}
   MaxLen = %d
   OutFile = "beh.ndjson"
   Sample = 2
@@ -94,6 +94,18 @@ def check(prop, tier, replay=None):
             violations.append(dict(sig=dict(a='read', fields=['fatal-concurrent-map-access']),
                                    replay=dict(property=prop, steps=[], deviation='the process aborted with a concurrent map access while readers ran next to updates', stderr=crash),
                                    text='readers running next to updates/reloads crash the process: concurrent map access'))
+        # a reload and the consumption of an update at the same time (two atomic actions of Discovery.tla: with a reload that keeps every
+        # job both orders end in the table of the update)
+        race = None
+        if not replay:
+            rf = os.path.join(sd, 'race.ndjson')
+            C.run([kvh, 'discrace', '-out', rf, '-rounds', '2000' if tier == 'quick' else '4500'], timeout=1200)
+            race = (C.read_ndjson(rf) or [{}])[0]
+            if race.get('lost') or race.get('stale'):
+                violations.append(dict(sig=dict(a='reload-next-to-consume', fields=['explorer-table']),
+                                       replay=dict(property=prop, steps=[], deviation=race),
+                                       text='a reload that keeps every job, running next to the consumption of an update, left the explorer with another table than the '
+                                            'update\'s: %d looked-up targets of the update missing, %d of the previous update still there' % (race.get('lost', 0), race.get('stale', 0))))
         acts = {}
         for r in recs:
             for s in r['steps']:
@@ -107,7 +119,7 @@ def check(prop, tier, replay=None):
                         'consumption; reloads adding/removing/keeping jobs) replayed on the real TargetsDiscovery/Explore/ConfigManager, once sequentially (state '
                         'after every step, all earlier snapshots re-compared at the end) and once with 4 reader goroutines (every read must equal the specification '
                         'value in a state of its window); non-trivial: contains updates, consumption and reloads',
-                   spec_actions_covered_by_impl_traces=acts, exhaustive=False,
+                   spec_actions_covered_by_impl_traces=acts, exhaustive=False, reload_next_to_consume=race,
                    explanation='exhaustive BFS of MCDiscovery (2 jobs, every update shape, bounded depth) checks the C17 invariants on the model; simulated behaviours over 3 '
                                'jobs are replayed and validated by TLC (DiscoveryEval) against the specification operators')
         return C.conclude(prop, tier, 'model_checking', cov, t0, violations,
